@@ -679,7 +679,7 @@ theorem sliceResult_sound {p : J → Val → Bool} {l : List J} {vs : VList} (h 
     · simp [h1, h2, h]
 
 theorem Cfg.top_pinned {c : Cfg} (h : c.pinned = false) : c.top.pinned = false := h
-theorem Cfg.nest_pinned {c : Cfg} (h : c.pinned = false) : c.nest.pinned = false := h
+theorem Cfg.nest_pinned {c : Cfg} {m : Obj} (h : c.pinned = false) : (c.nestIn m).pinned = false := h
 
 /-- the slice case shared by `withValue`, `elemValue` and `mapElemValue` -/
 theorem slice_sound {c : Cfg} {t : Ty} {l : List J} {v : Val} {ev : J → Except Err Val}
@@ -906,7 +906,7 @@ theorem unmFields_sound (c : Cfg) (hc : c.pinned = false) :
   | .nil, m, vs, h => by simp [unmFields] at h; subst h; simp [satFields]
   | .cons name tag t rest, m, vs, h => by
     unfold unmFields at h
-    cases hf : fieldCore c name tag t.isSlice m (fun o j => withValue c.nest o t j) (fun _ => absentRequired c t)
+    cases hf : fieldCore c name tag t.isSlice m (fun o j => withValue (c.nestIn m) o t j) (fun _ => absentRequired c t)
         (defaultVal c t) (zero t) with
     | error e => simp [hf] at h
     | ok v =>
@@ -914,9 +914,9 @@ theorem unmFields_sound (c : Cfg) (hc : c.pinned = false) :
       | error e => simp [hf, hrest] at h
       | ok vs' =>
         simp [hf, hrest] at h; subst h
-        have h1 := fieldCore_sound (k := derefKind t) (conv := fun j v => satTy c.nest t j v)
+        have h1 := fieldCore_sound (k := derefKind t) (conv := fun j v => satTy (c.nestIn m) t j v)
           (absent := fun v => satAbsent c t v) (dflt := fun d v => satDefault t d v) (isZ := fun v => isZero t v) hc
-          (fun o j v hv => withValue_sound c.nest (Cfg.nest_pinned hc) t o j v hv)
+          (fun o j v hv => withValue_sound (c.nestIn m) (Cfg.nest_pinned hc) t o j v hv)
           (fun v hv => absentRequired_sound c hc t v hv)
           (fun d v hv => defaultVal_sound c hc t d v hv)
           (isZero_zero t) hf
